@@ -136,6 +136,16 @@ theorem flush_in_comment (q : PState) (K : List Ctx) :
     rw [this, step_of_next _ h1]
     simp [loop, value_in_comment]
 
+/-- `/` followed by a byte other than `/` and `*`, outside strings: the parser is in ERR -/
+theorem slash_other (q : PState) (ho : Outside q) (c : UInt8) (h1 : c ≠ 47) (h2 : c ≠ 42) (rest : Bytes) :
+    ∃ e, e.state = .ERR ∧ loop q (47 :: c :: rest) = loop e rest := by
+  obtain ⟨k, K, hk, hkc⟩ := ho.top
+  have s1 : body q 47 = some (.next, inC q (.COMMENT1 :: q.ctx)) := by
+    simp [body, hk, ho.noc, ho.s1, ho.s2, ho.s3, next]
+  have s2 : body (inC q (.COMMENT1 :: q.ctx)) c = some (.next, { q with inComment := false, state := .ERR }) := by
+    simp [body, afterComment, h1, h2, hk, hkc, dispatch, next]
+  exact ⟨_, rfl, by rw [step_of_next _ s1, step_of_next _ s2]⟩
+
 /-- in a state reached by the parser, "not in a comment" already says that the context top is a container -/
 theorem outside_of_inv (q : PState) (hi : Inv q) (hc : q.inComment = false) (h1 : q.state ≠ .STRING)
     (h2 : q.state ≠ .QPROPERTY) (h3 : q.state ≠ .ESCAPE) : Outside q := by
